@@ -36,7 +36,7 @@ VARIABLES cfg,      \* configuration of the running store
           handles,  \* names for which a Secret handle has been handed out
           cache,    \* [kind: "none"|"empty"|"readerr"|"garbage"|"doc", doc: [Names -> Nil | [ver, la]], wfail: BOOLEAN]
           phase,    \* "config" | "init" | "running" | "failed"       (Close does not end the store's usefulness)
-          closed,   \* Close has been called: the background poller is gone
+          closed,   \* "open" | "closing" (Close called, the poller is on its way out) | "closed" (the poller is gone)
           ini,      \* construction in progress: [tried, missing, wait, wake, deadline, flush]
           poll,     \* Nil | [snap, todo, upd (Nil | Del | version), failed, waiters, leader, act]
           lk,       \* [Names -> Nil | [leader, members, dead]] lookup flights (dead: the leader's context has ended)
@@ -101,8 +101,9 @@ Installed(h, n, v) == [h EXCEPT !.inst[n] = Append(@, v)]
 \* deadline: absolute time at which the caller's context ends, or Nil.
 NewStore(c, bad, deadline, cc) ==      \* cc: the cache as the new store finds it
   /\ phase \in {"config", "running", "failed"} /\ poll = Nil /\ \A n \in Names : (rq[n] = Nil /\ lk[n] = Nil)
+  /\ closed # "closing"
   /\ \A k \in Callers : call[k] = Nil
-  /\ cfg' = c /\ handles' = {} /\ closed' = FALSE
+  /\ cfg' = c /\ handles' = {} /\ closed' = "open"
   /\ IF bad
      THEN /\ phase' = "failed" /\ m' = [n \in Names |-> Nil] /\ ini' = NoIni
           /\ out' = Event("ret", [call |-> "newstore", res |-> "err"])
@@ -185,7 +186,7 @@ Expired(n) ==
 \* Refresh / a tick of the poller: start a round (snapshot under the lock) or join the one in flight
 Refresh(c) ==
   /\ phase = "running"
-  /\ (c \in Callers => call[c] = Nil) /\ (c = "poller" => cfg.auto /\ ~closed)
+  /\ (c \in Callers => call[c] = Nil) /\ (c = "poller" => cfg.auto /\ closed = "open")
   /\ IF poll = Nil
      THEN poll' = [snap |-> [n \in Names |-> IF IsRec(m[n]) THEN [ver |-> m[n].ver, expired |-> Expired(n)] ELSE Nil],
                    todo |-> Known(m), upd |-> [n \in Names |-> Nil], failed |-> FALSE,
@@ -210,7 +211,7 @@ PollStep(n) ==
   /\ UNCHANGED <<cfg, svc, m, handles, cache, phase, closed, ini, lk, call, now, hist>>
 
 \* the poller's context ends at Close; an API caller's Refresh context is not modelled as ending
-PollCtxDone == poll.leader = "poller" /\ closed
+PollCtxDone == poll.leader = "poller" /\ closed # "open"
 
 PollResp(n, forceErr) ==
   /\ poll # Nil /\ rq[n] # Nil /\ rq[n].by = "poll"
@@ -350,13 +351,21 @@ Cancel(k) ==
   /\ UNCHANGED <<cfg, svc, m, handles, cache, phase, closed, ini, poll, rq, now, hist>>
 
 (* --- Close, cache faults, time ------------------------------------------------------------------ *)
-\* Close stops the poller; a running poller rewrites the cache on its way out (fresh access stamps)
+\* Close cancels the poller's context and waits for it; the poller, on its way out, rewrites the cache
+\* (fresh access stamps) -- a separate step: handle calls may still slip in before that last flush.
+\* Without a background poller Close has nothing to do.
 Close ==
-  /\ phase = "running" /\ ~closed
+  /\ phase = "running" /\ closed = "open"
   /\ (IF poll = Nil THEN TRUE ELSE poll.leader # "poller")   \* Close waits for the poller; the driver closes between polls
-  /\ closed' = TRUE
-  /\ cache' = IF cfg.auto THEN Flush(m) ELSE cache
-  /\ out' = Event("close", [flushed |-> (cfg.auto /\ Flushes)])
+  /\ closed' = IF cfg.auto THEN "closing" ELSE "closed"
+  /\ out' = IF cfg.auto THEN Event("closing", [x |-> 0]) ELSE Event("close", [flushed |-> FALSE])
+  /\ UNCHANGED <<cfg, svc, m, handles, cache, phase, ini, poll, lk, rq, call, now, hist>>
+
+PollerExit ==
+  /\ closed = "closing"
+  /\ closed' = "closed"
+  /\ cache' = Flush(m)
+  /\ out' = Event("close", [flushed |-> Flushes])
   /\ UNCHANGED <<cfg, svc, m, handles, phase, ini, poll, lk, rq, call, now, hist>>
 
 CacheFault(w) ==
@@ -372,6 +381,7 @@ Timers ==
 
 \* Code steps take no (virtual) time: the clock does not move while one is due.
 Urgent ==
+  \/ closed = "closing"
   \/ (phase = "init" /\ ini.wake # Nil /\ now >= ini.wake)
   \/ (phase = "init" /\ ini.wake = Nil /\ ReqsBy("init") = {})       \* next request / round end
   \/ (phase = "init" /\ InitCtxDone /\ ReqsBy("init") # {})         \* the client honours the context
@@ -389,7 +399,7 @@ Advance(t) ==
 
 (* --- initial state ---------------------------------------------------------------------------------- *)
 Init ==
-  /\ cfg = NoCfg /\ m = [n \in Names |-> Nil] /\ handles = {} /\ phase = "config" /\ closed = FALSE
+  /\ cfg = NoCfg /\ m = [n \in Names |-> Nil] /\ handles = {} /\ phase = "config" /\ closed = "open"
   /\ ini = NoIni /\ poll = Nil /\ lk = [n \in Names |-> Nil] /\ rq = [n \in Names |-> Nil]
   /\ call = [k \in Callers |-> Nil] /\ now = 0
   /\ hist = [served |-> [n \in Names |-> {}], inst |-> [n \in Names |-> <<>>], supplied |-> {}]
@@ -405,6 +415,10 @@ HandleNeverDangles == phase = "running" => \A n \in handles : IsRec(m[n])
 ReadServed == (out.ev = "read") => out.ver \in hist.served[out.name]
 \* every installed version was served
 InstalledServed == \A n \in Names : IsRec(m[n]) => m[n].ver \in hist.served[n]
+
+\* C12: what a handle returns is the version most recently installed for its name -- so any one reader sees the
+\* versions of a name in the order polls installed them, and after a completed poll never an older one
+InstLast == \A n \in Names : IsRec(m[n]) => (hist.inst[n] # <<>> /\ m[n].ver = hist.inst[n][Len(hist.inst[n])])
 
 \* C11: a poll that completes without error leaves every known secret at a version that was the
 \* service's active one at some instant during the poll; a failed poll changes nothing
